@@ -23,7 +23,11 @@ impl std::str::FromStr for Signature {
         // It's quite confusing, but let it be... we have to deal with reality.
         if text.contains("\n") {
             // If text is multiline, we assume PGP Public Key block
-            Ok(Signature::KeyBlock(text.to_string()))
+            // the block is written on the lines after `Signed-By:` (Display puts a line break in
+            // front of it): that line break is layout, not part of the key
+            Ok(Signature::KeyBlock(
+                text.strip_prefix('\n').unwrap_or(text).to_string(),
+            ))
         } else {
             // otherwise one-liner is a path
             Ok(Signature::KeyPath(text.into()))
